@@ -462,6 +462,10 @@ def run_fit(ctx, drv, cases):
             continue
         ctx.count('fits run', 3)
         ctx.case(case)
+        if not (f1.shape == f2.shape == f3.shape == (N,)):
+            ctx.fail('a fit with N terms returns N coefficients', dict(case, N=N),
+                     [list(f1.shape), list(f2.shape), list(f3.shape)], [N])
+            continue
         # correspondence: the data are what the model's poly gives for the generating coefficients
         pts = '%d ' % len(r) + ' '.join(fhex(u) + ' ' + fhex(v) for u, v in zip(r, phi))
         lines.append('zpoly %s %d %s %s' % (fam, N, ' '.join(fhex(v) for v in c), pts))
